@@ -29,6 +29,10 @@ class Failed(Exception):
     pass
 
 
+class TableMissing(Exception):
+    pass
+
+
 def fallbacks(f):
     return [f] if f == "generic" else [f, "generic"]
 
@@ -93,6 +97,8 @@ class Ref:
             return "NotFound"
         except Failed:
             return "Other:RuntimeError"
+        except TableMissing:
+            return "Other:TableFileNotFound"
         finally:
             self.loaded = None
 
@@ -222,6 +228,9 @@ class Ref:
         if k is None:
             raise NotFound()
         d = self.decl[k][0]
+        dd = tuple(d) if isinstance(d, (list, tuple)) else d
+        if c.get("recursive") and self.decl[k][1] == "default" and dd not in self.dirs:
+            raise TableMissing()                    # the dependencies are read from the table file: it is gone
         self._undeclare({"flavor": f, "name": n, "version": v, "noaction": c.get("noaction")})
         if not c.get("noaction"):
             d = tuple(d) if isinstance(d, (list, tuple)) else d
